@@ -82,6 +82,7 @@ def run(ctx):
                 "edge; ZBDD: (tautology(level + 1), Empty) as the first node of its chain); the default not_var is not(var).")
     n = ector.run(ctx, F, only=("bdd", "bcdd", "zbdd"))
     ctx.floor("E-TABLE.ctor", "interpreted constructor bodies", n, 15)
+    ector.check_zbdd_var_chain(ctx, F)
     ctx.explain("E-TAUT: ZBDDCache::tautology(level) returns the chain entry covering exactly the levels from `level` down "
                 "(Base beyond the last level); post_reorder_mut (run on init, add_vars and after reordering) starts the chain "
                 "with Base, walks the levels bottom-up and appends node(level; prev, prev) per level, then stores the chain.")
